@@ -54,13 +54,14 @@ func main() {
 	}
 	os.MkdirAll(*out, 0o755)
 	gens := map[string]func(*ctx) (string, error){
-		"Enums.lean":      genEnums,
-		"Regex.lean":      genRegex,
-		"Columns.lean":    genColumns,
-		"FileTable.lean":  genFileTable,
-		"NyctTables.lean": genNyctTables,
-		"HashSchema.lean": genHashSchema,
-		"Inventory.lean":  genInventory,
+		"Enums.lean":          genEnums,
+		"Regex.lean":          genRegex,
+		"Columns.lean":        genColumns,
+		"FileTable.lean":      genFileTable,
+		"NyctTables.lean":     genNyctTables,
+		"HashSchema.lean":     genHashSchema,
+		"Inventory.lean":      genInventory,
+		"ExportTemplate.lean": genExportTemplate,
 	}
 	names := []string{}
 	for n := range gens {
